@@ -541,3 +541,113 @@ Section DisplayExamples.
     substr_filter [98; 99] 5 [[97; 98; 99]; [98; 97; 99]; [98; 99]] = [5; 7].
   Proof. split; [vm_compute; reflexivity|]. split; vm_compute; reflexivity. Qed.
 End DisplayExamples.
+
+(* ================= the loading side: several pushers (the parallel directory walker) =================
+   Statements only; proofs live in proofs/ChunkStoreRefine.v and proofs/LoaderProofs.v.
+   spec/LoaderSpec.v: ONE reader takes the first h lines as the header and numbers the others 0, 1, 2, ...
+   (reader_lops); model/LoaderModel.v: ChunkList.Push running core.go's ItemBuilder (header, itemIndex) as one atomic
+   step, made by any of several pushers in any order, interleaved with Snapshot(tail) (ld_run over the chunk store). *)
+From Fzf Require Import LoaderSpec LoaderModel ChunkStoreRefine LoaderProofs.
+
+(* chunklist_refines_live: for EVERY operation sequence, what the snapshots (read through the FINAL store, i.e.
+   after everything that happened later) and the list itself dereference to is what the flat-list specification
+   says: Push appends, a rejected Push / Clear / the copies of Snapshot do what `live` says, and Snapshot(tail) keeps
+   exactly the last `tail` items - both loops of the --tail trim. *)
+Theorem chunklist_refines_live : forall (item : Type) (ops : list (cop item)) (cl : clist item) (snaps : list (snap_result item)),
+  crun (cl_empty, []) ops = Ok (cl, snaps) ->
+  map (fun r => contents_of (cl_store cl) (sn_ids r)) (rev snaps) = live [] (map lop_of ops) /\
+  contents cl = live_end [] (map lop_of ops).
+Proof. exact chunklist_refines_live_proof. Qed.
+
+(* pushers_linearisable: for EVERY schedule of the pushers' commits and of snapshots, for every number of header
+   lines: the snapshots handed out, the list, the header and the item counter are those of ONE reader reading the
+   lines in commit order (linearise) with snapshots at the same places. *)
+Theorem pushers_linearisable : forall (D : Type) (h : nat) (qs : list (list D)) (sched : list llabel) (st : lstate D),
+  ld_run h (ld_init qs) sched = Ok st ->
+  let tr := linearise qs sched in
+  map (fun r => contents_of (cl_store (ls_cl st)) (sn_ids r)) (rev (ls_snaps st)) = live [] (reader_lops h 0 0 tr) /\
+  contents (ls_cl st) = live_end [] (reader_lops h 0 0 tr) /\
+  b_header (ls_b st) = firstn h (lines_of tr) /\
+  b_next (ls_b st) = Z.of_nat (length (skipn h (lines_of tr))).
+Proof. intros D h. exact (pushers_linearisable_proof h). Qed.
+
+(* what that one reader's snapshots are: each is what is left of the numbered lines read before it after dropping
+   items from the front (--tail), and without --tail it IS those lines: the frozen prefix of the input. *)
+Theorem reader_snapshots_are_suffixes : forall (D : Type) (h : nat) (tr : list (sop D)),
+  Forall2 (fun l dn => exists pre, number_from 0 (skipn h dn) = pre ++ l)
+          (live [] (reader_lops h 0 0 tr)) (snap_prefixes [] tr) /\
+  exists pre, number_from 0 (skipn h (lines_of tr)) = pre ++ live_end [] (reader_lops h 0 0 tr).
+Proof. intros D h. exact (reader_suffixes_proof h). Qed.
+
+Theorem reader_snapshots_are_prefixes : forall (D : Type) (h : nat) (tr : list (sop D)), no_tail tr ->
+  live [] (reader_lops h 0 0 tr) = map (fun dn => number_from 0 (skipn h dn)) (snap_prefixes [] tr) /\
+  live_end [] (reader_lops h 0 0 tr) = number_from 0 (skipn h (lines_of tr)).
+Proof. intros D h. exact (reader_exact_proof h). Qed.
+
+(* ... and such a list numbers its positions: every index is its predecessor's + 1, no index occurs twice
+   (idx_injective, the assumption of publish_view, holds of everything the loader ever hands out), and the item with
+   index i is the i-th accepted line. *)
+Theorem suffix_numbered : forall (D : Type) a (X : list D) pre l, number_from a X = pre ++ l ->
+  numbered (map fst l) /\ NoDup (map fst l) /\
+  forall i d, In (i, d) l -> a <= i /\ nth_error X (Z.to_nat (i - a)) = Some d.
+Proof. intro D. exact suffix_numbered_proof. Qed.
+
+(* the three together, for the list itself: whatever the schedule *)
+Theorem concurrent_pushers_numbered : forall (D : Type) (h : nat) (qs : list (list D)) (sched : list llabel) (st : lstate D),
+  ld_run h (ld_init qs) sched = Ok st ->
+  let accepted := skipn h (lines_of (linearise qs sched)) in
+  numbered (map fst (contents (ls_cl st))) /\ NoDup (map fst (contents (ls_cl st))) /\
+  forall i d, In (i, d) (contents (ls_cl st)) -> 0 <= i /\ nth_error accepted (Z.to_nat i) = Some d.
+Proof.
+  intros D h qs sched st H accepted.
+  destruct (pushers_linearisable D h qs sched st H) as (_ & Hc & _).
+  destruct (reader_snapshots_are_suffixes D h (linearise qs sched)) as (_ & pre & Hp).
+  rewrite <- Hc in Hp. destruct (suffix_numbered D 0 _ _ _ Hp) as (H1 & H2 & H3).
+  split; [exact H1|]. split; [exact H2|]. intros i d Hin. destruct (H3 i d Hin) as [Ha Hb].
+  split; [exact Ha|]. now rewrite Z.sub_0_r in Hb.
+Qed.
+
+(* the spec check evaluated on the running program means what it says *)
+Theorem numbering_gaps_none : forall l, numbering_gaps l = [] <-> numbered l.
+Proof. exact numbering_gaps_none_proof. Qed.
+
+Print Assumptions chunklist_refines_live.
+Print Assumptions pushers_linearisable.
+Print Assumptions reader_snapshots_are_suffixes.
+Print Assumptions reader_snapshots_are_prefixes.
+Print Assumptions suffix_numbered.
+Print Assumptions concurrent_pushers_numbered.
+Print Assumptions numbering_gaps_none.
+
+Section LoaderExamples.
+  (* non-vacuity: three pushers, one header line, a --tail snapshot in the middle *)
+  Example pushers_nonvacuous :
+    exists st, ld_run 1 (ld_init [[10; 11]; [20]; [30; 31]])
+                      [LdPush 2; LdPush 0; LdSnap 0; LdPush 1; LdPush 2; LdSnap 2; LdPush 0; LdPush 1] = Ok st /\
+      linearise [[10; 11]; [20]; [30; 31]] [LdPush 2; LdPush 0; LdSnap 0; LdPush 1; LdPush 2; LdSnap 2; LdPush 0; LdPush 1]
+        = [SLine 30; SLine 10; SSnap 0; SLine 20; SLine 31; SSnap 2; SLine 11] /\
+      map (fun r => contents_of (cl_store (ls_cl st)) (sn_ids r)) (rev (ls_snaps st)) = [[(0, 10)]; [(1, 20); (2, 31)]] /\
+      contents (ls_cl st) = [(1, 20); (2, 31); (3, 11)] /\ b_header (ls_b st) = [30] /\ b_next (ls_b st) = 4.
+  Proof.
+    eexists. split; [vm_compute; reflexivity|]. split; [vm_compute; reflexivity|]. split; [vm_compute; reflexivity|].
+    split; [vm_compute; reflexivity|]. split; vm_compute; reflexivity.
+  Qed.
+
+  (* unlocked_builder_refuted: with the ItemBuilder run OUTSIDE the list mutex (read the counter, write it, append
+     under the lock as separate steps - NOT the code), two pushers with one line each produce two items with index 0,
+     or items whose order in the list is not the order of their indexes: neither list is `numbered`. *)
+  Example unlocked_builder_refuted :
+    (exists st, ub_run (ub_init [[10]; [20]]) [UbRead 0; UbRead 1; UbWrite 0; UbWrite 1; UbAppend 0; UbAppend 1] = Ok st /\
+       contents (us_cl st) = [(0, 10); (0, 20)] /\ us_next st = 1 /\
+       numbering_gaps (map fst (contents (us_cl st))) = [1] /\ ~ NoDup (map fst (contents (us_cl st)))) /\
+    (exists st, ub_run (ub_init [[10]; [20]]) [UbRead 0; UbWrite 0; UbRead 1; UbWrite 1; UbAppend 1; UbAppend 0] = Ok st /\
+       contents (us_cl st) = [(1, 20); (0, 10)] /\ numbering_gaps (map fst (contents (us_cl st))) = [1]).
+  Proof. split; [exact unlocked_builder_duplicates_proof | exact unlocked_builder_misorders_proof]. Qed.
+
+  Example locked_builder_numbers :
+    exists st1 st2, ld_run 0 (ld_init [[10]; [20]]) [LdPush 0; LdPush 1] = Ok st1 /\
+                    ld_run 0 (ld_init [[10]; [20]]) [LdPush 1; LdSnap 0; LdPush 0] = Ok st2 /\
+      contents (ls_cl st1) = [(0, 10); (1, 20)] /\ contents (ls_cl st2) = [(0, 20); (1, 10)] /\
+      map (fun r => contents_of (cl_store (ls_cl st2)) (sn_ids r)) (ls_snaps st2) = [[(0, 20)]].
+  Proof. exact locked_builder_numbers_proof. Qed.
+End LoaderExamples.
